@@ -779,6 +779,19 @@ def r7(cx):
         for sb, st in b.calls():
             if Q.callee_is(st, INDEXED) and any(Q.operand_local(a) in tainted for a in st['a'][1:] if Q.operand_local(a) is not None):
                 cx.violation(b.root, 'job-count-as-index', 'the number of jobs is used as a job index', loc=b.loc(st))
+        for sb, j, s in b.stmts():
+            # `index < jobs.len()`: the count used as the upper bound of valid job numbers
+            if s['k'] == 'assign' and s['rv']['k'] == 'binop' and s['rv'].get('op') in ('Lt', 'Le', 'Gt', 'Ge'):
+                ops = [s['rv'].get('a'), s['rv'].get('b')]
+                if not all(isinstance(o, dict) for o in ops):
+                    continue
+                tl = [Q.operand_local(o) in tainted if Q.operand_local(o) is not None else False for o in ops]
+                other_const = any('c' in o for o in ops)
+                if any(tl) and not all(tl) and not other_const:
+                    cx.violation(b.root, 'job-count-as-index-bound', 'a value is compared with the number of jobs to decide whether it is a valid '
+                                 'job number: job numbers are sparse (a job keeps its number when lower-numbered jobs are removed), so `%3` of a '
+                                 'live job is "not found" once job 1 is gone, and the vacated `%1` is accepted and then indexes a missing job',
+                                 loc=b.loc(s))
 
 
 # --- explanation addendum (generated catalogue in DESIGN.md reads RS.explanation)
